@@ -215,8 +215,20 @@ def ev(e: E, env: Dict[str, Any], macros: Dict[str, Macro], depth: int = 0) -> A
                 return datetime.date(*[int(a) for a in args])
             except ValueError as ex:
                 raise SqlError(f"Conversion Error: {ex}")
+        if name == "hour":
+            return getattr(args[0], "hour", 0)
+        if name == "minute":
+            return getattr(args[0], "minute", 0)
+        if name == "second":
+            return getattr(args[0], "second", 0)
+        if name == "millisecond":  # DuckDB: the seconds are included
+            return getattr(args[0], "second", 0) * 1000 + getattr(args[0], "microsecond", 0) // 1000
+        if name == "microsecond":  # DuckDB: the seconds are included
+            return getattr(args[0], "second", 0) * 1000000 + getattr(args[0], "microsecond", 0)
         if name == "strftime":
-            return args[0].strftime(str(args[1]))
+            # DuckDB accepts both argument orders (timestamp, format) and (format, timestamp)
+            a0, a1 = (args[1], args[0]) if isinstance(args[0], str) else (args[0], args[1])
+            return a0.strftime(str(a1))
         if name == "strptime":
             # the directives the library uses (%G ISO year, %V ISO week, %u ISO weekday, %Y %m %d %j) mean the same in Python
             try:
